@@ -457,19 +457,30 @@ def judge(res, h):
 # --------------------------------------------------------------------------------------- replay
 
 def trace_inputs(trace):
-    """state of named program variables as assigned along the counterexample (last value wins)"""
+    """state of named program variables as assigned along the counterexample (last value wins).
+    Objects created by __CPROVER_is_fresh(p, n) in a requires clause appear as dynamic_object$N; the step that binds
+    such an object to the wrapper parameter has lhs '(const void *)<p>_wrapper' and directly follows the object's
+    element assignments - used to publish the object's bytes under the parameter's name as well."""
     vals = {}
+    last_dyn = None
     for st in trace or []:
         if st.get('stepType') != 'assignment':
             continue
         lhs = st.get('lhs', '')
+        md = re.fullmatch(r'(dynamic_object(?:\$\d+)?)\[(\d+)l?\]', lhs)
+        if md:
+            last_dyn = md.group(1)
+        ma = re.fullmatch(r'\(const void \*\)(\w+)_wrapper', lhs)
+        if ma and last_dyn:
+            vals['__alias__' + ma.group(1)] = last_dyn
+            last_dyn = None
+            continue
         if lhs.startswith('__CPROVER') or 'return_value' in lhs and 'nondet' not in lhs:
             continue
         v = st.get('value', {})
         data = v.get('data')
         if data is None and 'members' not in v and 'elements' not in v:
             continue
-        fn = st.get('sourceLocation', {}).get('function', '')
         if st.get('hidden') and not lhs.startswith('dynamic_object'):
             continue
         vals[lhs] = data if data is not None else flatten_value(v)
@@ -560,6 +571,12 @@ def simplify_inputs(ce):
     for name, d in arrs.items():
         n = max(d) + 1
         out[name] = [d.get(i, 0) for i in range(n)]
+    for k, v in ce.items():
+        if k.startswith('__alias__') and v in out:
+            out[k[len('__alias__'):]] = out[v]
+    for k in list(scal):   # dfcc renames wrapper parameters to <p>_wrapper
+        if k.endswith('_wrapper'):
+            scal[k[:-8]] = scal[k]
     return scal, out
 
 
